@@ -801,6 +801,260 @@ fn chunk_mode(a: &Args, t: &mut Trace) -> Value {
         "suffix_cuts_skipped_c01_domain": skipped_suffix, "msgs_parsed_with_window_exactly_msg": window_exact})
 }
 
+
+// ------------------------------------------------------------------------------------------------ tails mode
+/// (offset, length, serial?) of every message the real iterator yields for these bytes; None if it panicked
+fn parse_simple<R: BufRead>(rd: R) -> Option<Vec<(usize, usize, bool)>> {
+    catch(std::panic::AssertUnwindSafe(|| {
+        let mut it = DltMessageIterator::new(0, rd);
+        let mut out = vec![];
+        loop {
+            let before = it.bytes_processed;
+            let skipped_before = it.bytes_skipped;
+            match it.next() {
+                Some(_) => {
+                    let off = before + (it.bytes_skipped - skipped_before);
+                    out.push((off, it.bytes_processed - off, it.detected_serial_header));
+                    if out.len() > 1000 {
+                        break;
+                    }
+                }
+                None => break,
+            }
+        }
+        out
+    })).ok()
+}
+
+fn no_d(rng: &mut Rng, n: usize) -> Vec<u8> {
+    (0..n).map(|_| { let b = rng.next_u64() as u8; if b == b'D' { b'd' } else { b } }).collect()
+}
+
+/// 4-byte token of spec/FramingTail.tla -> bytes
+fn token_bytes(rng: &mut Rng, t: u64) -> [u8; 4] {
+    let mc = no_d(rng, 1)[0];
+    match t {
+        9 => STO,
+        8 => SER,
+        7 => [0x20, mc, 0, 0],
+        n => [0x20, mc, 0, 4 + 4 * n as u8],
+    }
+}
+
+/// one ChunkTrace case for `prefix ++ tail`: chunk runs, latched suffix runs (cut in front of the tail's last preceding message)
+/// and - if the fresh-iterator comparison is claimed for this tail - the run over the tail alone
+#[allow(clippy::too_many_arguments)]
+fn tail_case(t: &mut Trace, case: u64, rng: &mut Rng, serial: bool, bytes: &[u8], tail_start: usize, claimed: bool, lm: usize, origin: &str, desc: &Value,
+    counters: &mut (u64, u64, u64)) {
+    let start = if rng.chance(1, 2) { 0 } else { rng.below(1_000_000) as u32 };
+    let refevs = iterate(bytes, start, None, 10_000);
+    let refmsgs: Vec<Value> = refevs.iter().filter(|e| e["ev"] == "msg").map(|e| json!({"index":e["index"],"off":e["off"],"len":e["len"],"hash":e["hash"]})).collect();
+    let ref_ok = refevs.last().map(|e| e["ev"] == "end").unwrap_or(false);
+    t.ev(json!({"ev":"reset","case":case,"hdr":{"framing": if serial {"serial"} else {"storage"},"total":bytes.len(),"start":start,"ref":refmsgs,"ref_ok":ref_ok,
+        "embmax":[],"stream_hash":hash31(bytes),"gen_msgs":0,"origin":origin,"tail_start":tail_start,"claimed":claimed,"tail":desc}}));
+    if !ref_ok {
+        for e in refevs.iter().filter(|e| e["ev"] == "panic") {
+            t.ev(e.clone());
+        }
+        return;
+    }
+    let scheds: [(&str, Mode); 3] = [("one", Mode::Chunk(1)), ("random", Mode::Random), ("full", Mode::Full)];
+    for (i, (name, mode)) in scheds.iter().enumerate() {
+        if i == 2 && case % 3 != 0 {
+            continue;
+        }
+        let cap = if i == 0 { lm + CACHE_LINE } else { 128 * 1024 };
+        let sh = shared(bytes.to_vec(), mode.clone(), case * 31 + i as u64);
+        let win = Rc::new(Cell::new(0));
+        let rd = Spy { inner: LowMarkBufReader::new(ScriptedReader(sh.clone()), cap, lm), win: win.clone() };
+        t.ev(json!({"ev":"run","kind":"chunk","sched":name,"cap":cap,"lm":lm,"drop":0}));
+        for e in iterate(rd, start, Some(win), refmsgs.len() + 5) {
+            t.ev(e);
+        }
+        counters.0 += 1;
+    }
+    for k in 1..=refmsgs.len() {
+        let cut = refmsgs[k - 1]["off"].as_u64().unwrap() as usize + refmsgs[k - 1]["len"].as_u64().unwrap() as usize;
+        if cut > tail_start || (cut == tail_start && !claimed) {
+            continue;
+        }
+        t.ev(json!({"ev":"run","kind":"suffix","sched": if cut == tail_start {"slice-tail-alone"} else {"slice"},"cap":0,"lm":0,"drop":k}));
+        for e in iterate(&bytes[cut..], start + k as u32, None, refmsgs.len() + 5) {
+            t.ev(e);
+        }
+        if cut == tail_start { counters.2 += 1 } else { counters.1 += 1 }
+    }
+}
+
+/// truncated-tail / embedded-message classes at byte granularity. Returns (tail bytes, claimed)
+fn byte_tail(rng: &mut Rng, serial: bool, tlen: usize, class: u64) -> Option<(Vec<u8>, bool)> {
+    let mut b = no_d(rng, tlen);
+    let mut fixed = vec![false; tlen];
+    let trunc = class < 3;
+    let embed = class % 3; // 0 none, 1 other framing, 2 same framing
+    let emb_serial = if embed == 1 { !serial } else { serial };
+    // embedded complete message (htyp 0x20, no optional fields)
+    if embed != 0 {
+        let hdr = if emb_serial { 8 } else { 20 };
+        let first = if trunc { 4 } else { 0 };
+        if tlen < first + hdr {
+            return None;
+        }
+        let mut placed = false;
+        for _try in 0..40 {
+            let e = first + rng.below((tlen - hdr - first) as u64 + 1) as usize;
+            let maxp = tlen - e - hdr;
+            let p = match rng.below(3) { 0 => maxp, 1 => 0, _ => rng.below(maxp as u64 + 1) as usize };
+            // the outer truncated storage message needs its own standard header at 16..20: those bytes must stay free
+            let hdr_pos: Vec<usize> = if emb_serial { (e..e + 8).collect() } else { (e..e + 4).chain(e + 16..e + 20).collect() };
+            if trunc && !serial && tlen >= 20 && hdr_pos.iter().any(|x| (16..20).contains(x)) {
+                continue;
+            }
+            if trunc && serial && hdr_pos.iter().any(|x| (4..8).contains(x)) {
+                continue;
+            }
+            let mc = no_d(rng, 1)[0];
+            if emb_serial {
+                b[e..e + 4].copy_from_slice(&SER);
+                b[e + 4..e + 8].copy_from_slice(&[0x20, mc, 0, (4 + p) as u8]);
+            } else {
+                b[e..e + 4].copy_from_slice(&STO);
+                b[e + 16..e + 20].copy_from_slice(&[0x20, mc, 0, (4 + p) as u8]);
+            }
+            for x in hdr_pos {
+                fixed[x] = true;
+            }
+            placed = true;
+            break;
+        }
+        if !placed {
+            return None;
+        }
+    }
+    if trunc {
+        if serial {
+            if tlen < 4 {
+                return None;
+            }
+            b[0..4].copy_from_slice(&SER);
+            if tlen >= 8 {
+                let l = tlen - 4 + 1 + rng.below(100) as usize;
+                b[4..8].copy_from_slice(&[0x20, no_d(rng, 1)[0], 0, l as u8]);
+            }
+        } else {
+            if tlen < 4 {
+                return None;
+            }
+            b[0..4].copy_from_slice(&STO);
+            if tlen >= 20 {
+                let l = tlen - 16 + 1 + rng.below(100) as usize;
+                b[16..20].copy_from_slice(&[0x20, no_d(rng, 1)[0], 0, l as u8]);
+            }
+        }
+    }
+    let other = if serial { STO } else { SER };
+    let has_other = b.windows(4).any(|w| w == other);
+    let stops = !serial && trunc && tlen >= 20;
+    Some((b, !has_other || stops))
+}
+
+fn tails_mode(a: &Args, t: &mut Trace) -> Value {
+    let seed = a.num("--seed", 1);
+    let mut rng = Rng::new(seed ^ 0x7a11_c04);
+    let lm = DLT_MAX_STORAGE_MSG_SIZE + a.num("--lm-extra", 0) as usize;
+    let sample_every = a.num("--sample-every", 60).max(1);
+    let mut case = a.num("--first-case", 0);
+    let (mut replayed, mut fast, mut slow, mut drift, mut claimed_n, mut unclaimed_differ) = (0u64, 0u64, 0u64, 0u64, 0u64, 0u64);
+    let mut counters = (0u64, 0u64, 0u64); // chunk runs, latched suffix runs, tail-alone runs
+    if let Some(f) = a.get("--scenarios") {
+        let rdr = std::io::BufReader::new(std::fs::File::open(f).expect("scenarios"));
+        for line in rdr.lines() {
+            let line = line.unwrap();
+            if line.trim().is_empty() {
+                continue;
+            }
+            let scn: Value = serde_json::from_str(&line).unwrap();
+            let serial = scn["framing"] == "serial";
+            let claimed = scn["claimed"].as_bool().unwrap();
+            let toks: Vec<u64> = scn["tail"].as_array().unwrap().iter().map(|x| x.as_u64().unwrap()).collect();
+            let tail: Vec<u8> = toks.iter().flat_map(|x| token_bytes(&mut rng, *x)).collect();
+            let minmsg: Vec<u8> = if serial { [8u64, 0].iter().flat_map(|x| token_bytes(&mut rng, *x)).collect() } else { [9u64, 0, 0, 0, 0].iter().flat_map(|x| token_bytes(&mut rng, *x)).collect() };
+            let pred = |key: &str| -> Vec<(usize, usize, bool)> {
+                scn[key].as_array().unwrap().iter().map(|m| (m["off"].as_u64().unwrap() as usize * 4, m["len"].as_u64().unwrap() as usize * 4, m["fr"] == "serial")).collect()
+            };
+            let (p_alone, p_behind) = (pred("alone"), pred("behind"));
+            // observation vs prediction (equality only): tail alone, and behind 1, 2, 5 complete messages
+            let mut agree = parse_simple(&tail[..]) == Some(p_alone.clone());
+            for k in [1usize, 2, 5] {
+                let mut b = Vec::new();
+                for _ in 0..k {
+                    b.extend_from_slice(&minmsg);
+                }
+                let pre = b.len();
+                b.extend_from_slice(&tail);
+                let exp: Vec<(usize, usize, bool)> = (0..k).map(|i| (i * minmsg.len(), minmsg.len(), serial)).chain(p_behind.iter().map(|(o, l, s)| (o + pre, *l, *s))).collect();
+                if parse_simple(&b[..]) != Some(exp) {
+                    agree = false;
+                }
+            }
+            replayed += 1;
+            if claimed {
+                claimed_n += 1;
+            } else if p_alone != p_behind {
+                unclaimed_differ += 1;
+            }
+            if !agree {
+                drift += 1;
+            }
+            if agree && replayed % sample_every != 0 {
+                fast += 1;
+                continue;
+            }
+            slow += 1;
+            let k = [1usize, 2, 5][(replayed % 3) as usize];
+            let mut b = Vec::new();
+            for _ in 0..k {
+                b.extend_from_slice(&minmsg);
+            }
+            let pre = b.len();
+            b.extend_from_slice(&tail);
+            tail_case(t, case, &mut rng, serial, &b, pre, claimed, lm, "tlc", &json!({"tokens": toks, "k": k, "agree": agree}), &mut counters);
+            case += 1;
+        }
+    }
+    // byte-granular classes around MIN_DLT_MSG_SIZE (20) and the minimal serial message (8)
+    let mut grid = serde_json::Map::new();
+    if a.num("--grid", 1) > 0 {
+        let names = ["trunc", "trunc+other", "trunc+same", "garbage", "garbage+other", "garbage+same"];
+        for serial in [false, true] {
+            let lens: &[usize] = if serial { &[7, 8, 9, 15, 16, 17, 19, 20, 21, 39, 40, 41] } else { &[19, 20, 21, 35, 36, 39, 40, 41, 59, 60, 61] };
+            for &k in &[0usize, 1, 2, 5] {
+                for &tlen in lens {
+                    for class in 0..6u64 {
+                        let Some((tail, claimed)) = byte_tail(&mut rng, serial, tlen, class) else { continue };
+                        let mut st = Stream { serial, segs: vec![] };
+                        for _ in 0..k {
+                            let flags = rng.below(32) as u8;
+                            let pl = small_payload(&mut rng);
+                            st.segs.push(Seg::M(rand_msg(&mut rng, serial, flags, pl)));
+                        }
+                        sanitize(&mut st, &mut rng);
+                        let mut b = st.layout().bytes;
+                        let pre = b.len();
+                        b.extend_from_slice(&tail);
+                        let key = format!("{}.{}.{}", if serial { "serial" } else { "storage" }, names[class as usize], if claimed { "claimed" } else { "autodetect-ambiguous" });
+                        *grid.entry(key).or_insert(json!(0)) = json!(grid.get(&format!("{}.{}.{}", if serial { "serial" } else { "storage" }, names[class as usize], if claimed { "claimed" } else { "autodetect-ambiguous" })).and_then(|v| v.as_u64()).unwrap_or(0) + 1);
+                        tail_case(t, case, &mut rng, serial, &b, pre, claimed, lm, "grid", &json!({"len": tlen, "class": names[class as usize], "k": k}), &mut counters);
+                        case += 1;
+                    }
+                }
+            }
+        }
+    }
+    json!({"cases": case, "lines": t.lines, "replayed": replayed, "fast_path": fast, "slow_path": slow, "drift": drift, "claimed_tails": claimed_n,
+        "unclaimed_tails_where_model_differs": unclaimed_differ, "chunk_runs": counters.0, "latched_suffix_runs": counters.1, "tail_alone_runs": counters.2, "grid": grid, "lm": lm})
+}
+
 fn main() {
     quiet_panics();
     let a = Args::from_env();
@@ -808,6 +1062,7 @@ fn main() {
     let info = match a.str("--mode", "reader").as_str() {
         "reader" => reader_mode(&a, &mut t),
         "chunk" => chunk_mode(&a, &mut t),
+        "tails" => tails_mode(&a, &mut t),
         x => panic!("unknown mode {}", x),
     };
     t.flush();
